@@ -75,6 +75,7 @@ def main(tier, seed):
                       'numbers concrete (shapes.py)']
     import c10
     shapes = [(nm, ('Term', t)) for nm, t in depth1_terms()] + derived_shapes() + [(nm, ('Term', t)) for nm, t in nested_terms()] + c10.image_shapes()[:4]
+    shapes += [(nm, ('Term', t)) for nm, t in gen_terms(8 if quick else 40, seed)]          # generated nested shapes (depth <= 3), deterministic per VERIF_SEED
     st = ('Inheritance', A(0), A(1))
     ss = sentences(st); ts = tasks(st)
     shapes += ([x for x in ss if '/Eternal/' in x[0] or x[0].startswith('sent/Judgement') and x[0].endswith('/1')] + ts[::3]) if quick else (ss + ts)
